@@ -33,6 +33,9 @@ func main() {
 			"READS: every placement of 3 blobs over the read replicas / none / only a non-read replica, fetch under every subset of failing read replicas, stat+enumerate through the reference-map checker; "+
 			"the same placements with every non-empty set of read replicas that report WRONG SIZES in their own stat/enumerate answers (short/long/zero/per-replica-different; about all or some blobs), and replicas that are consistently wrong on receive+stat+enumerate with blobs written through the store (each ref once, ascending, within limit, complete; which size wins is not judged); "+
 			"fetch with every assignment of {ok,slow,error} to the read replicas (slow = gated Fetch released only once the fetch returned or was seen waiting). "+
+			"ROUND 4: (wc/) stores built by the config constructor with minWritesForSuccess omitted / 0 / 1..n x readBackends omitted / [] / spelled out / every shorter subset / only read-only replicas / longer (write list + read-only replicas), all 2^n ok/error assignments + seeded 5-mode ones, judged against the documented quorum (default = all write replicas); "+
+			"(we/) every non-empty failing subset with all its replicas returning the same sentinel error (context.Canceled / DeadlineExceeded bare, wrapped, in *url.Error; io.EOF; io.ErrUnexpectedEOF; os.ErrNotExist; *PathError; ErrCorruptBlob; …) as plain error and as lost ack, or the same wrong answer (zero SizedRef, size 0, size-1), plus seeded mixtures; "+
+			"(wx/) the caller's context ends (cancel / deadline; mid-call or before the call) while ctx-aware slow replicas are uploading (they abort with the context's error) next to ok / failing / gated replicas. "+
 			"distinct = (n,m,read set,mode assignment,schedule) resp. (n,read set,placement); non-trivial = at least one faulty/slow replica or m<n, resp. at least one blob on >=2 or 0 read replicas",
 		run)
 }
@@ -76,9 +79,15 @@ type cluster struct {
 	nonRead  []*node // write replicas that are not read replicas
 	s        blobserver.Storage
 	minCfg   string // "explicit" | "default"
+	xs       []*node // all read-only replicas (config family, cfgwrite.go); x = xs[0]
+	label    string  // config family: name of the configuration
+	family   string  // case-id prefix of the family that runs on this cluster ("" = "w")
 }
 
 func (cl *cluster) cfg() string {
+	if cl.label != "" {
+		return cl.label
+	}
 	d := "same"
 	if cl.distinct {
 		d = "distinct"
@@ -157,6 +166,8 @@ func run(r *ev.Run) {
 	r.Assume("a replica that stored the blob and then reported an error (lost ack) counts as having stored it (ground truth from the wrapper's stored event); it does not count as a replica that 'can succeed' for the must-return-error rule")
 	r.Assume("stragglers that finish after an early ack (m<n) are not judged beyond the quorum rule; each case uses a fresh blob and waits for quiescence before its read-back")
 	r.Assume("a read replica that reports a wrong size for a blob in its stat/enumerate answer is inside the quantifier (failing replicas per operation: error, wrong size, slow); the replica store must still report the blob exactly once; the size it reports must be one that some holding read replica reported, which one is not judged")
+	r.Assume("config constructor: minWritesForSuccess omitted means 'all' = every WRITE replica ('backends'), as the package documentation says (\"Writes wait for minWritesForSuccess (default: all)\"); an explicit 0 is the unset value of the number and is judged as the same default; readBackends (any length, any overlap with backends) never changes the quorum of a receive")
+	r.Assume("a replica that returns an error has not acknowledged the blob, whatever the error is (context.Canceled, io.EOF, os.ErrNotExist, … bare or wrapped); when the caller's own context ended before the receive was seen to have returned, an error answer is accepted without further judgement, while a nil error still needs the quorum")
 	r.Assume("bounded waits (a few ms) are used only to choose the next harness action (release a gate before or after the call returned); every verdict is computed from the recorded global event sequence")
 
 	var jobs []job
@@ -166,6 +177,9 @@ func run(r *ev.Run) {
 	jobs = append(jobs, misreadJobs(r)...)
 	jobs = append(jobs, miswriteJobs(r)...)
 	jobs = append(jobs, gatedFetchJobs(r)...)
+	jobs = append(jobs, cfgJobs(r)...)
+	jobs = append(jobs, errKindJobs(r)...)
+	jobs = append(jobs, cancelJobs(r)...)
 	runJobs(24, jobs)
 	runRetryCases(r)
 
@@ -185,6 +199,29 @@ func run(r *ev.Run) {
 		r.Require("gate_release", "before-return", "after-return", "while-call-blocked")
 		r.Require("outcomes", "ack", "error", "ack-before-all-replicas-done", "error-after-all-replicas-done")
 		r.Require("assignment_class", "all-ok", "quorum-reachable-despite-faults", "quorum-needs-slow-replica", "quorum-impossible")
+	}
+	{
+		// round 4: config-constructor matrix (cfgwrite.go), failing replicas' error kinds (errkinds.go),
+		// caller context ending mid-upload (cancel.go)
+		for _, min := range []string{"omitted", "zero", "explicit"} {
+			r.Require("cfg_matrix", min+"/read-default", min+"/read-shorter", min+"/read-longer", min+"/read-equal-length",
+				min+"/write-only-replicas", min+"/read-set-disjoint")
+		}
+		r.Require("cfg_below_default_quorum", "read-shorter/stored-by-at-least-len(readBackends)", "read-longer/all-write-replicas-ok")
+		var ek []string
+		for _, k := range errKinds[1:] {
+			ek = append(ek, k.name)
+		}
+		r.Require("replica_answer_kinds", ek...)
+		r.Require("replica_answer_kinds", misKinds[1:]...)
+		r.Require("replica_answer_kinds", ctxKinds...)
+		r.Require("below_quorum_every_failure_is", ek...)
+		r.Require("below_quorum_every_failure_is", "lost-ack:ctx-canceled", "lost-ack:wrapped-ctx-canceled", "zero-sizedref", "ctx-slow-aborted")
+		r.Require("caller_context_end", "cancel/before-return", "cancel/after-return", "deadline/before-return", "deadline/after-return",
+			"pre-cancel/before-return", "pre-deadline/before-return")
+		r.Require("caller_context_outcomes", "ended-while-call-blocked/error", "ended-before-return/ack-with-quorum", "ended-after-return/ack",
+			"ctx-aware-replica-aborted", "gated-replica-stored-after-context-ended")
+		r.Require("schedules", "ctx-blocked", "ctx-early")
 	}
 	{
 		r.Require("placements", "on-none", "on-one-read-replica", "on-several-read-replicas", "on-all-read-replicas", "only-on-non-read-replica", "on-read-and-non-read-replica")
